@@ -388,10 +388,15 @@ class Evaluator:
         if t in ("call", "callN"):
             r = self.routines[n[1]]
             params = {}
+            # ABI-typed arguments are materialised (tmp.set(arg)) in a Seq in front of the call expression, so they
+            # are evaluated first, in order; then the remaining arguments in order
+            for p, a in zip(r["params"], n[2]):
+                if p[2] == "abi":
+                    params[p[0]] = E(a)
             for p, a in zip(r["params"], n[2]):
                 if isinstance(a, list) and a and a[0] == "ref":
                     params[p[0]] = self.cell(a[1], fr)
-                else:
+                elif p[2] != "abi":
                     params[p[0]] = E(a)
             locs = {name: Cell(name, d.get("slot")) for name, d in r.get("locals", {}).items()}
             if n[1] in self.active:
